@@ -1272,3 +1272,145 @@ def judge_decimal_deser(case, impl):
         if d not in ("ok", "TypeError", "ValueError", None):
             fails.append((f"extras:wrong-exception:{d}:{site}", f"Deserializer given {pr['x']} raised {d}"))
     return fails
+
+
+# ------------------------------------------------------------------ C02: DateTime / DateField / TimeField (oracle-only)
+# The documented decision, written from the docstrings (independent of the library): DateTime takes a datetime or a
+# string in its format (and, undocumented but tested, an int Unix timestamp strictly between 10**9 and 2*10**9);
+# DateField takes a date, a datetime (its date part) or a string in its format; TimeField takes a time or a string in
+# its format.  Everything else is refused with TypeError / ValueError - whatever its magnitude.
+
+TEMPORAL_VALUES = [
+    ["datetime", 2020, 1, 31, 23, 59, 1], ["date", 2020, 1, 31], ["time", 23, 59, 1],
+    "01/31/20 07:15:45", "2020-01-31", "23:59:01", "13/31/20 07:15:45", "2020-02-30", "24:00:00", "", "n/a", "1500000000",
+    0, 1, -1, True, False, 12122020, 999999999, 10 ** 9, 10 ** 9 + 1, 1500000000, 2 * 10 ** 9 - 1, 2 * 10 ** 9, 2 * 10 ** 9 + 1, 2 ** 31 - 1, 2 ** 31,
+    2 ** 32, 10 ** 10, 10 ** 12, 10 ** 15, 10 ** 18, 2 ** 63 - 1, 2 ** 63, 2 ** 64, 10 ** 20, 10 ** 30, 10 ** 100, -10 ** 9 - 5, -1500000000, -10 ** 20,
+    ["float", "0.0"], ["float", "1.5e9"], ["float", "1e15"], ["float", "1e20"], ["float", "1e308"], ["float", "inf"], ["float", "-inf"], ["float", "nan"],
+    ["float", "-1e18"], ["dec", "1500000000"], ["dec", "1e30"], None, ["list"], ["dict"], ["bytes"],
+]
+TEMPORAL_LEAVES = ["datetime", "date", "timefield", "datetime-fmt"]
+TEMPORAL_WRAPS = ["bare", "optional", "array", "map", "anyof-then-str", "not", "tuple2", "set"]
+
+
+def _temporal_field(leaf):
+    from typedpy.extfields import TimeField
+    return {"datetime": lambda: DateTime(), "date": lambda: DateField(), "timefield": lambda: TimeField(),
+            "datetime-fmt": lambda: DateTime(datetime_format="%Y-%m-%d %H:%M")}[leaf]()
+
+
+def _temporal_value(spec):
+    if isinstance(spec, list):
+        if spec[0] == "time":
+            return datetime.time(*spec[1:])
+        if spec[0] == "list":
+            return [2020, 1, 31]
+        if spec[0] == "dict":
+            return {"year": 2020}
+        if spec[0] == "bytes":
+            return b"2020-01-31"
+        return load(spec)
+    return spec
+
+
+def temporal_expected(leaf, v):
+    """(accepted?, documented normal form or None)"""
+    def parse(s, fmt):
+        try:
+            return datetime.datetime.strptime(s, fmt)
+        except ValueError:
+            return None
+    if leaf in ("datetime", "datetime-fmt"):
+        fmt = "%m/%d/%y %H:%M:%S" if leaf == "datetime" else "%Y-%m-%d %H:%M"
+        if isinstance(v, datetime.datetime):
+            return True, v
+        if isinstance(v, str):
+            d = parse(v, fmt)
+            return d is not None, d
+        if isinstance(v, int) and not isinstance(v, bool) and 10 ** 9 < v < 2 * 10 ** 9:
+            return True, datetime.datetime.fromtimestamp(v)
+        return False, None
+    if leaf == "date":
+        if isinstance(v, datetime.datetime):
+            return True, v.date()
+        if isinstance(v, datetime.date):
+            return True, v
+        if isinstance(v, str):
+            d = parse(v, "%Y-%m-%d")
+            return d is not None, (d.date() if d else None)
+        return False, None
+    if leaf == "timefield":
+        if isinstance(v, datetime.time):
+            return True, v
+        if isinstance(v, str):
+            d = parse(v, "%H:%M:%S")
+            return d is not None, (d.time() if d else None)
+        return False, None
+    raise ValueError(leaf)
+
+
+def temporal_cases():
+    out = []
+    for leaf in TEMPORAL_LEAVES:
+        for wrap in TEMPORAL_WRAPS:
+            for vi in range(len(TEMPORAL_VALUES)):
+                if wrap not in ("bare", "array") and vi % 2 != len(wrap) % 2 and not (24 <= vi <= 42):
+                    continue      # every value bare and as an Array element; the ints of every magnitude everywhere
+                out.append({"suite": "extras-temporal", "leaf": leaf, "wrap": wrap, "value": vi})
+    return out
+
+
+def run_temporal(case):
+    leaf, wrap = case["leaf"], case["wrap"]
+    v = _temporal_value(TEMPORAL_VALUES[case["value"]])
+    mk = lambda: _temporal_field(leaf)
+    try:
+        field = {"bare": mk, "optional": lambda: AnyOf[mk(), NoneField()], "array": lambda: Array[mk()], "map": lambda: Map[String(), mk()],
+                 "anyof-then-str": lambda: AnyOf[mk(), Boolean()], "not": lambda: typedpy.NotField[mk()], "tuple2": lambda: Tuple[mk(), Integer()],
+                 "set": lambda: Set[mk()]}[wrap]()
+        cls = type("T", (Structure,), {"f": field, "_required": []})
+    except Exception as e:
+        return {"skip": f"class: {type(e).__name__}: {e}"[:200]}
+    try:
+        arg = {"bare": lambda: v, "optional": lambda: v, "array": lambda: [v], "map": lambda: {"k": v}, "anyof-then-str": lambda: v, "not": lambda: v,
+               "tuple2": lambda: (v, 1), "set": lambda: {v}}[wrap]()
+    except TypeError:
+        return {"skip": "unhashable element"}
+    leaf_of = {"bare": lambda s: s, "optional": lambda s: s, "array": lambda s: s[0], "map": lambda s: s["k"], "anyof-then-str": lambda s: s,
+               "not": lambda s: s, "tuple2": lambda s: s[0], "set": lambda s: next(iter(s))}[wrap]
+    exp_ok, exp_norm = temporal_expected(leaf, v)
+    if wrap == "optional" and v is None:
+        exp_ok, exp_norm = True, None
+    if wrap == "anyof-then-str" and isinstance(v, bool):
+        exp_ok, exp_norm = True, v
+    if wrap == "not":
+        exp_ok, exp_norm = (not exp_ok), v
+    res = {"site": f"{wrap}>{leaf}", "value": repr(v)[:80], "expect_ok": exp_ok}
+    try:
+        x = cls(f=arg)
+        res["out"] = "accepted"
+        stored = leaf_of(x.f)
+        res["stored"] = repr(stored)[:80]
+        res["normal"] = bool(type(stored) is type(exp_norm) and stored == exp_norm) if exp_ok else None
+        res["expected_norm"] = repr(exp_norm)[:80]
+    except Exception as e:
+        res["out"] = "rejected"
+        res["exc"] = type(e).__name__
+        res["documented_exc"] = isinstance(e, (TypeError, ValueError))
+        res["msg"] = str(e)[:160]
+    return res
+
+
+def judge_temporal(case, impl):
+    if "skip" in impl:
+        return []
+    site = impl["site"]
+    fails = []
+    if impl["out"] == "rejected" and not impl["documented_exc"]:
+        fails.append((f"extras:wrong-exception:{impl['exc']}:ctor:{site}", f"constructor given f={impl['value']} raised {impl['exc']} ({impl['msg']}) instead of TypeError/ValueError"))
+    if impl["out"] == "accepted" and not impl["expect_ok"]:
+        fails.append((f"extras:temporal:accepts-undocumented:{site}", f"{site} accepts {impl['value']} (stored {impl.get('stored')}), which the documentation excludes"))
+    if impl["out"] == "rejected" and impl["expect_ok"]:
+        fails.append((f"extras:temporal:rejects-documented:{site}", f"{site} rejects {impl['value']}: {impl.get('exc')}: {impl.get('msg')}"))
+    if impl["out"] == "accepted" and impl["expect_ok"] and impl.get("normal") is False:
+        fails.append((f"extras:temporal:normal-form:{site}", f"{site} given {impl['value']} reads back {impl.get('stored')}, documented {impl.get('expected_norm')}"))
+    return fails
